@@ -141,4 +141,29 @@ def obsClass (r : String) : String :=
   if r = "ok" then "ok" else if r = "panic" then "panic"
   else if refusalVariants.contains (r.drop 4).toString then "refused" else "late-error"
 
+/-- saves of a loaded font (in place or elsewhere): every plain file that was on disk below `data/` and `images/` of the
+    SOURCE when the font was loaded, and that the history did not remove through the API (`KEEP`, computed by the
+    harness from the directory tree, not from norad's listing; restricted to the stores the load requested), is
+    below the target afterwards — with the bytes of a successful re-insert, otherwise with the bytes it had in the
+    source.  Features: `untracked` (the font has no entry for it), `lost`, `changed`. -/
+def keepFailures (f : AFont String) (pre post : FS String) (t src : APath) (keep : String) : List String :=
+  if keep = "-" || keep = "" then [] else
+  let fails := (keep.splitOn ",").filterMap fun e =>
+    match e.splitOn ":" with
+    | [k, hk] =>
+      let kind := if k = "d" then StoreKind.data else StoreKind.images
+      let key := Path.parse (unhexD hk)
+      let path := t ++ [(storeDirName kind).toList] ++ namesOf key
+      let cell : Option (Cell String) := ((f.store kind).items.find? (fun kc => kc.1 == key)).map (·.2)
+      let expected : Option (Node String) := match cell with
+        | some (Cell.loaded b) => some (Node.file b)
+        | _ => lookup pre (src ++ [(storeDirName kind).toList] ++ namesOf key)
+      match cell, lookup post path with
+      | none, _ => some "untracked"
+      | _, none => some "lost"
+      | _, some n => if some n == expected then none else some "changed"
+    | _ => none
+  dedup fails
+
+
 end Driver.FSFam
